@@ -3,8 +3,10 @@ import hashlib, json, os, sys, time, re
 
 VERIF = os.path.dirname(os.path.dirname(os.path.abspath(__file__)))
 REPO = os.environ.get('VERIF_REPO', '/repo')
-EVIDENCE_DIR = os.path.join(VERIF, 'evidence')
-REPLAY_DIR = os.path.join(VERIF, 'replays')
+# VERIF_OUT redirects evidence and replays (used when a check is pointed at a scratch tree carrying a seeded change)
+_OUT = os.environ.get('VERIF_OUT') or VERIF
+EVIDENCE_DIR = os.path.join(_OUT, 'evidence')
+REPLAY_DIR = os.path.join(_OUT, 'replays')
 FINDINGS_FILE = os.path.join(VERIF, 'known_findings.json')
 
 
